@@ -1244,6 +1244,18 @@ def relation_edges(f, lhs_pred, rhs_pred, rels):
                 boolvars[d["var"]] = (cmps[-1], neg_)
     for b in f.blocks.values():
         t = b.term
+        if t and t.get("k") == "switch" and ("==" in rels):
+            # `switch (L) { case R: ... }`: on the edge into a case label L == R holds (when no other label falls through into it)
+            subj = dict(t.get("core") or {})
+            subj.setdefault("t", t.get("cond") if isinstance(t.get("cond"), str) else " ".join(t.get("cond") or []))
+            if lhs_pred(subj):
+                for k, s_ in enumerate(b.succs):
+                    blk = f.blocks.get(s_) if s_ is not None else None
+                    lab = (blk.label or {}) if blk is not None else {}
+                    if lab.get("k") == "case" and rhs_pred({"t": lab.get("t") or "", "const": lab.get("const"), "g": lab.get("g")}) and \
+                            all(p_ == b.id for p_ in blk.preds):
+                        out.append((b.id, k))
+            continue
         if not t or len(b.succs) != 2:
             continue
         for k in (0, 1):
